@@ -27,7 +27,10 @@ impl SquareAndBitBoard {
     }
 }
 
-pub type MoveList = NoDrop<ArrayVec<SquareAndBitBoard, 18>>;
+// One slot per piece that can move, plus up to two en-passant slots.  A chess set needs at most
+// 18, but `Board` does not limit the number of pieces a position may hold (FEN / `BoardBuilder`
+// accept more), and slots are pushed unchecked: size the list for a full board.
+pub type MoveList = NoDrop<ArrayVec<SquareAndBitBoard, 64>>;
 
 /// An incremental move generator
 ///
@@ -95,7 +98,7 @@ impl MoveGen {
     fn enumerate_moves(board: &Board) -> MoveList {
         let checkers = *board.checkers();
         let mask = !board.color_combined(board.side_to_move());
-        let mut movelist = NoDrop::new(ArrayVec::<SquareAndBitBoard, 18>::new());
+        let mut movelist = NoDrop::new(ArrayVec::<SquareAndBitBoard, 64>::new());
 
         if checkers == EMPTY {
             PawnType::legals::<NotInCheckType>(&mut movelist, &board, mask);
